@@ -7,7 +7,10 @@
 //!           [--shards K] [--corpus DIR] [--replay FILE]
 mod util;
 mod gal;
+mod c01;
 mod c15;
+mod sm;
+mod smgen;
 mod c19;
 mod c20;
 
@@ -115,6 +118,18 @@ fn main() {
             ctype = c20::CTYPE;
             runner = c20::RUNNER;
         }
+        "SM" | "C02" | "C04" | "C05" | "C06" | "C07" | "C08" | "C09" | "C10" | "C12" | "C14" | "C18" => {
+            if args.replay.is_none() {
+                let k = smgen::knobs_for(&args.prop);
+                for _ in 0..args.n { inputs.push(smgen::gen_sm(&mut rng, &k)); }
+            }
+            for i in &inputs {
+                w.push(smgen::run_input(i));
+            }
+            header = "Require Import Verif.Run.EvalSM.";
+            ctype = "smcase";
+            runner = smgen::runner_for(&args.prop);
+        }
         "C15" => {
             if args.replay.is_none() {
                 inputs.extend(c15::generate(&mut rng, args.n, args.thorough));
@@ -125,6 +140,17 @@ fn main() {
             header = c15::HEADER;
             ctype = c15::CTYPE;
             runner = c15::RUNNER;
+        }
+        "C01" => {
+            if args.replay.is_none() {
+                inputs.extend(c01::generate(&mut rng, args.n, args.thorough));
+            }
+            for i in &inputs {
+                w.push(c01::run_input(i));
+            }
+            header = c01::HEADER;
+            ctype = c01::CTYPE;
+            runner = c01::RUNNER;
         }
         "C19" => {
             if args.replay.is_none() {
